@@ -5,10 +5,10 @@ import json
 import os
 import random
 
-from sfv.framework import Ctx, Property
+from sfv.framework import Ctx, Inconclusive, Property
 from sfv.rt import cwldiff as C
 from sfv.rt import cwlgen_wf as G
-from sfv.rt.par import pmap
+from sfv.translate import cwlops
 
 
 # ------------------------------------------------------------------------------------------------
@@ -45,6 +45,59 @@ def _real_flatten(srcs):
         else:
             outs.append(ListToken(value=[Token(value=v, tag="0." + ".".join(map(str, tag))) for tag, v in payload], tag="0"))
     return [t.value for t in _flatten_token_list(outs)]
+
+
+def _tokval(t):
+    from streamflow.workflow.token import ListToken
+
+    return [_tokval(x) for x in t.value] if isinstance(t, ListToken) else t.value
+
+
+async def _class_level(scratch: str, empties, merges):
+    """the REAL CWLEmptyScatterConditionalStep (_eval / _on_false on a saved CWLWorkflow with a private database) and the REAL
+    ListMergeCombinator.combine (inputs arriving in the given order)"""
+    from sfv.rt.sfctx import close_context, make_context
+    from streamflow.core.workflow import Token
+    from streamflow.cwl.combinator import ListMergeCombinator
+    from streamflow.cwl.step import CWLEmptyScatterConditionalStep
+    from streamflow.cwl.workflow import CWLWorkflow
+    from streamflow.workflow.token import ListToken
+
+    context = make_context(scratch)
+    out_e, out_m = [], []
+    try:
+        for k, (method, arrays) in enumerate(empties):
+            wf = CWLWorkflow(context=context, name=f"w{k}", config={}, cwl_version="v1.2")
+            step = wf.create_step(cls=CWLEmptyScatterConditionalStep, name="/s-empty-scatter-condition", scatter_method=method)
+            inputs = {}
+            for i, a in enumerate(arrays):
+                step.add_input_port(f"p{i}", wf.create_port())
+                step.add_output_port(f"p{i}", wf.create_port())
+                inputs[f"p{i}"] = ListToken(value=[Token(value=x, tag=f"0.{j}") for j, x in enumerate(a)], tag="0")
+            skip = wf.create_port()
+            step.add_skip_port("o", skip)
+            await wf.save(context.database)
+            for t in inputs.values():
+                await t.save(context.database, port_id=step.get_input_port("p0").persistent_id)
+            if await step._eval(inputs):
+                out_e.append("run")
+            else:
+                await step._on_false(inputs)
+                out_e.append(_tokval(skip.token_list[0]))
+        for names, srcs, flatten, order in merges:
+            c = ListMergeCombinator(name="c", workflow=None, input_names=names, output_name="o", flatten=flatten)
+            for nm in names:
+                c.add_item(nm)
+            toks = [Token(value=p, tag="0") if kind == "one" else
+                    ListToken(value=[Token(value=v, tag="0." + ".".join(map(str, tag))) for tag, v in p], tag="0") for kind, p in srcs]
+            got = []
+            for i in order:
+                async for schema in c.combine(names[i], toks[i]):
+                    got.append(_tokval(schema["o"]["token"]))
+            out_m.append(got)
+    finally:
+        await close_context(context)
+    return out_e, out_m
 
 
 def _ints(xs):
@@ -175,12 +228,14 @@ class C29(Property):
     lean_targets = ["SFV.Props.C29"]
     props_files = ["SFV/Props/C29.lean"]
     drivers = ["Drivers/C29.lean"]
-    translators = []
+    translators = [cwlops.generate]
     quick_budget_s = 1500
-    thorough_budget_s = 7200
+    thorough_budget_s = 2400
     min_nontrivial = 20
     rule = ("(i) operator level: random lists of optional values through the real First/Only/AllNonNullTransformer._transform and random "
-            "tagged sources through the real _flatten_token_list, against the Lean model and the Lean spec; (ii) whole-runner "
+            "tagged sources through the real _flatten_token_list, against the Lean model and the Lean spec; class level: the real "
+            "CWLEmptyScatterConditionalStep (_eval/_on_false on a saved workflow, 1-3 scatter inputs, every method) and the real "
+            "ListMergeCombinator.combine (1-4 sources, random arrival order, flatten on/off) against the model; (ii) whole-runner "
             "differential: a corpus of single-operator workflows (scatter dot/flat/nested incl. empty inputs and a length mismatch, "
             "linkMerge nested/flattened incl. a duplicated source and a cross-product source, pickValue in its three modes incl. the "
             "error cases, when) and randomly generated CWL v1.2 workflows of 1..6 steps (ExpressionTools, container-free "
@@ -189,6 +244,8 @@ class C29(Property):
             "with private HOME/TMPDIR/database; compared: success/failure and the output object up to file locations; corpus outputs are "
             "also compared with the Lean model (StreamFlow) and the Lean spec (cwltool). Non-trivial = distinct document.")
     trusted_base = [
+        "translator harness/sfv/translate/cwlops.py (ast patterns: CWLEmptyScatterConditionalStep._eval / _on_false, the sort key of "
+        "_flatten_token_list -> SFV/Gen/CwlOpsGen.lean)",
         "cwltool 3.2 as the reference oracle; node v20 for its expressions",
         "differential validation (not proof) for everything above the operator layer: CWLTranslator, expression evaluation, file "
         "staging, the token engine (scatter/gather/combinator steps are properties C01/C02)",
@@ -242,6 +299,57 @@ class C29(Property):
             lines.append("mergef " + " ".join(enc))
             real.append(_ints(_real_flatten(srcs)))
             meta.append(("merge_flattened", None, srcs))
+        # ---- class level: CWLEmptyScatterConditionalStep and ListMergeCombinator as objects ----
+        import asyncio
+
+        ne = 24 if ctx.tier == "quick" else 300
+        empties, merges = [], []
+        for i in range(ne):
+            method = rng.choice(["dotproduct", "flat_crossproduct", "nested_crossproduct"])
+            arrays = [[rng.randint(0, 9) for _ in range(rng.choice([0, 0, 1, 2, 3]))] for _ in range(rng.randint(1, 3))]
+            empties.append((method, arrays))
+        for i in range(ne):
+            k = rng.randint(1, 4)
+            flatten = rng.random() < 0.6
+            srcs = []
+            for _ in range(k):
+                if rng.random() < 0.5 or not flatten:
+                    srcs.append(("one", rng.randint(0, 99)))
+                else:
+                    srcs.append(("many", [([j], rng.randint(0, 99)) for j in range(rng.randint(0, 12))]))
+            order = list(range(k))
+            rng.shuffle(order)
+            merges.append(([f"s{j}" for j in range(k)], srcs, flatten, order))
+        cdir = os.path.join(ctx.scratch, f"classlevel{ctx.mode}")
+        os.makedirs(cdir, exist_ok=True)
+        real_e, real_m = asyncio.run(asyncio.wait_for(_class_level(cdir, empties, merges), 300))
+        clines = []
+        for method, arrays in empties:
+            clines.append(("empty nested " if method == "nested_crossproduct" else "empty flat ") + " ".join(str(len(a)) for a in arrays))
+        for names, srcs, flatten, order in merges:
+            if flatten:
+                clines.append("mergef " + " ".join(f"{nm}=one:{p}" if kind == "one" else f"{nm}=many:" + "/".join(f"{t[0]}:{v}" for t, v in p)
+                                                   for nm, (kind, p) in zip(names, srcs)))
+            else:
+                clines.append("mergen " + " ".join(f"{nm}={p}" for nm, (kind, p) in zip(names, srcs)))
+        cgot = ctx.lean("Drivers/C29.lean", clines)
+        for (method, arrays), r, g in zip(empties, real_e, cgot[:ne]):
+            sf = g.split(":", 1)[1]
+            exp = "run" if sf == "run" else (_unrows(sf) if method == "nested_crossproduct" else _unints(sf))
+            ctx.case({"op": "empty-scatter", "method": method, "arrays": arrays, "real": r, "model": exp},
+                     ("empty", method, json.dumps(arrays)), "class:CWLEmptyScatterConditionalStep")
+            if r != exp:
+                ctx.disagree("CWLEmptyScatterConditionalStep vs model", f"{method} {arrays}: code {r}, Lean model {exp}",
+                             {"op": "operator", "line": clines[empties.index((method, arrays))]})
+        for (names, srcs, flatten, order), r, g, ln in zip(merges, real_m, cgot[ne:], clines[ne:]):
+            spec, sf = _parse(g)
+            ctx.case({"op": "ListMergeCombinator", "flatten": flatten, "order": order, "real": r}, ("lmc", ln, tuple(order)),
+                     "class:ListMergeCombinator")
+            if r != [_unints(sf)]:
+                ctx.disagree("ListMergeCombinator.combine vs model", f"{ln} arrival {order}: code {r}, Lean model {[_unints(sf)]}",
+                             {"op": "operator", "line": ln})
+            if [_unints(spec)] != r:
+                ctx.fail("operator:ListMergeCombinator", f"{ln} arrival {order}: code {r}, standard {[_unints(spec)]}", {"op": "operator", "line": ln})
         got = ctx.lean("Drivers/C29.lean", lines)
         for ln, g, r, m in zip(lines, got, real, meta):
             spec, sf = _parse(g)
@@ -265,9 +373,8 @@ class C29(Property):
                  "corpus" if d.get("corpus") else "random")
         ctx.count(f"outcome:{o1}/{o2}")
         key = d.get("key") or ("random:disagreement" if not d.get("corpus") else f"corpus:{d['name']}:disagreement")
-        if "timeout" in (o1, o2):
-            ctx.fail("hang:" + ("streamflow" if o1 == "timeout" else "cwltool"), f"{d['name']}: runner did not finish ({o1}/{o2})", case)
-            return
+        if "timeout" in (o1, o2):   # cannot happen: run_cases_confirmed re-runs such cases alone or ends the check inconclusive
+            raise Inconclusive(f"{d['name']}: runner did not finish ({o1}/{o2})")
         if o1 != o2:
             ctx.fail(key, f"{d['name']}: StreamFlow {o1}, cwltool {o2}; sf stderr: {sf['stderr'][-400:]} ct stderr: {ct['stderr'][-300:]}", case)
         elif o1 == "success" and sf["norm"] != ct["norm"]:
@@ -316,19 +423,22 @@ class C29(Property):
         ctx.corpus_replayed += len(corpus)
         done = 0
         chunk = 16
+        budget = self.quick_budget_s if ctx.tier == "quick" else self.thorough_budget_s
         for start in range(0, len(cases), chunk):
-            if start >= len(corpus) and ctx.time_left() < 240:
-                ctx.notes.append(f"budget: {len(cases) - start} random documents not run")
-                if done < len(corpus) + 6:
+            # adaptive plan: no new documents once 70 % of the budget is used (the corpus always runs)
+            if start >= len(corpus) and ctx.time_left() < 0.3 * budget:
+                ctx.notes.append(f"adaptive plan: {len(cases) - start} of {len(cases) - len(corpus)} random documents not run (70% of the budget used)")
+                if done < len(corpus) + 4:
                     ctx.extra["incomplete"] = True
                 break
-            for case, status, res in pmap(C.run_case, cases[start:start + chunk], timeout=2400, workers=8):
-                d, ln = by_id[case["id"]]
-                done += 1
-                if status != "ok":
-                    ctx.fail("hang:harness", f"{d['name']}: {status}: {str(res)[:300]}", {"op": "doc", "name": d["name"], "doc": d["doc"], "job": d["job"]})
-                    continue
-                self._compare(ctx, d, res, ln)
+            try:
+                for case, res in C.run_cases_confirmed(cases[start:start + chunk], time_left=ctx.time_left):
+                    d, ln = by_id[case["id"]]
+                    done += 1
+                    self._compare(ctx, d, res, ln)
+            except C.Unconfirmed as e:
+                raise Inconclusive(str(e)) from e
+        ctx.extra["documents_planned"] = len(cases)
         ctx.extra["documents_run"] = done
 
     def replay(self, ctx: Ctx, data) -> None:
